@@ -176,6 +176,29 @@ def guarded(fn, *args, **kwargs):
                         '%s: %s' % (type(exc).__name__, str(exc)[:300]))
 
 
+class CallTimeout(Exception):
+    pass
+
+
+def with_timeout(fn, seconds=30):
+    """Run fn() under a SIGALRM watchdog (main thread only). A call that does not come back is *inconclusive*:
+    it raises Discard, never a violation. Needed because CPython's multiprocessing.Pool.terminate() occasionally
+    deadlocks when a pool is torn down by an exception (about 1 % of the rejected group calls here)."""
+    import signal
+
+    def on_alarm(signum, frame):
+        raise CallTimeout()
+    old = signal.signal(signal.SIGALRM, on_alarm)
+    signal.alarm(int(seconds))
+    try:
+        return fn()
+    except CallTimeout:
+        raise Discard('call did not return within %ds (inconclusive; CPython Pool.terminate race)' % seconds)
+    finally:
+        signal.alarm(0)
+        signal.signal(signal.SIGALRM, old)
+
+
 # ---------------------------------------------------------------------------------------------
 # known findings
 
@@ -350,6 +373,13 @@ def _shard_cmd(prop_id, part, tier, seed, shard, nshards, out):
             '--_shard', '%s:%d:%d' % (part, shard, nshards), '--_out', out, '--_seed', str(seed)]
 
 
+def _rm(path):
+    try:
+        os.remove(path)
+    except OSError:
+        pass
+
+
 def run_regressions(mod, known):
     """Seconds-long replay tier: saved minimal cases of earlier findings (fixed defects, seeded changes).
 
@@ -400,16 +430,29 @@ def run_property(mod, tier, seed, only_parts=None, max_procs=16):
     while queue or running:
         while queue and len(running) < max_procs:
             part, k, n, out = queue.pop(0)
+            logf = open(out + '.log', 'wb')
             p = subprocess.Popen(_shard_cmd(mod.ID, part.name, tier, seed, k, n, out), env=env,
-                                 stdout=subprocess.PIPE, stderr=subprocess.STDOUT)
-            running.append((p, part, k, out))
+                                 stdout=logf, stderr=subprocess.STDOUT)
+            logf.close()
+            running.append((p, part, k, out, time.time()))
         time.sleep(0.05)
         still = []
-        for p, part, k, out in running:
+        for p, part, k, out, started in running:
             if p.poll() is None:
-                still.append((p, part, k, out))
+                if time.time() - started > part.time_cap[tier] * 1.5 + 120:
+                    p.kill()
+                    p.wait()
+                    _rm(out + '.log')
+                    errors.append('shard %s:%d killed by the watchdog after %.0fs' % (part.name, k, time.time() - started))
+                    continue
+                still.append((p, part, k, out, started))
                 continue
-            log = p.stdout.read().decode(errors='replace')
+            try:
+                with open(out + '.log', 'rb') as fh:
+                    log = fh.read()[-6000:].decode(errors='replace')
+            except OSError:
+                log = ''
+            _rm(out + '.log')
             if p.returncode != 0 or not os.path.exists(out):
                 errors.append('shard %s:%d exited %s\n%s' % (part.name, k, p.returncode, log[-3000:]))
             else:
